@@ -1095,6 +1095,23 @@ func parsePreludeForms(text string) {
 	}
 }
 
+// formText: recursive definitions are given to the solver as uninterpreted functions; their
+// unfoldings at the applications that occur are supplied as hypotheses (see unfoldings).
+func formText(f *preludeForm) string {
+	if !strings.HasPrefix(f.text, "(define-fun-rec") {
+		return f.text
+	}
+	sf, ok := specFuncs[f.name]
+	if !ok {
+		return f.text
+	}
+	var as []string
+	for _, a := range sf.Args {
+		as = append(as, a.Name)
+	}
+	return "(declare-fun " + f.name + " (" + strings.Join(as, " ") + ") " + sf.Ret.Name + ")"
+}
+
 // neededForms: definitions (transitively) used by the terms, in file order.
 func neededForms(order []*Term) []*preludeForm {
 	need := map[string]bool{}
@@ -1159,7 +1176,7 @@ func (sc *Script) Render(logic string, getModel bool) string {
 	}
 	b.WriteString(preludeBase)
 	for _, f := range forms {
-		b.WriteString(f.text)
+		b.WriteString(formText(f))
 		b.WriteString("\n")
 	}
 	// declarations
